@@ -26,7 +26,8 @@ def origin_of(B):
 
 
 def caller_kwargs():
-    return {'edgecolor': 'blue', 'linewidth': 5}
+    # overriding values that are falsy (None, 0, False) are overrides like any other
+    return {'edgecolor': 'blue', 'linewidth': 5, 'facecolor': None, 'alpha': 0, 'fill': False}
 
 
 def kwargs_ok(self, artist, kwargs, result):
